@@ -159,6 +159,9 @@ def abs_packet(p, visible=False):
             v = getattr(p, vis if visible else name)
         except AttributeError:
             continue
+        except Exception as e:      # a computed (described) attribute whose function fails on the current values
+            vals.append({"n": vis, "v": {"t": "other", "o": "reading raises %s" % type(e).__name__}})
+            continue
         vals.append({"n": vis, "v": abs_value(v, visible)})
     return {"t": "pkt", "cls": p.__class__.__name__, "vals": vals}
 
